@@ -302,6 +302,7 @@ def check_c09(tier):
         dict(name="seg2d-bfs", worlds=["seg-2d"], seeds=HAND_SEEDS, depth=2, kinds=SEG_KINDS if not q else ("del_node", "add_node", "paint", "add_edge", "del_edge")),
         dict(name="aniso-given", worlds=["seg-2d-aniso", "seg-2d-fd"], seeds=HAND_SEEDS + ["fix6"], depth=1 if q else 2, kinds=SEG_KINDS),
         dict(name="3d", worlds=["seg-3d"], seeds=HAND_SEEDS, depth=1 if q else 2, kinds=SEG_KINDS),
+        dict(name="uint8-labels", worlds=["seg-2d-u8"], seeds=["u8ids", "div"], depth=1 if q else 2, kinds=SEG_KINDS),
     ]
     res = run_e1("C09", tier, stages, dict(undo_probe=True), time_budget=budget(tier, 400, 3000))
     return merge_results(res, run_e2("C09", tier, "C10", [(C09_TOGGLE, 3 if q else 4)],
